@@ -48,7 +48,11 @@ const PRELUDE: [&str; 12] = [
     "mkdir run/c07/d",
 ];
 
-const NUMBERS: [&str; 16] = ["0", "1", "-1", "5", "2", "3.7", "abc", "", "99999999999999999999", "-0", "1e3", "\u{ff19}", "100", "-5", "7", "0x10"];
+const NUMBERS: [&str; 24] = [
+    "0", "1", "-1", "5", "2", "3.7", "abc", "", "99999999999999999999", "-0", "1e3", "\u{ff19}", "100", "-5", "7", "0x10",
+    // integer boundaries (allocation-proportional uses are answered by the cap)
+    "9223372036854775807", "-9223372036854775808", "18446744073709551615", "4294967296", "2147483648", "-2147483649", "65536", "255",
+];
 const TEXTS: [&str; 16] = ["hello", "h\u{e9}llo", "\u{6f22}\u{5b57}", "", "a b", "true", "false", "0", "%", "${v0}", "${undefined}", "x=y", "1.2.3", "{\"a\":[1,2,{\"b\":null}]}", "-", "a,b,,c"];
 const HANDLES: [&str; 9] = ["${arr}", "${arr0}", "${mp}", "${st}", "${bytes}", "${released}", "nohandle", "handle:zzzzzzzzzzzzzzzzzzzz", "${r0}"];
 const PATHS: [&str; 9] = ["run/c07/f.txt", "run/c07/d", "run/c07/missing.txt", "", ".", "run/c07/*.txt", "run/c07/d/new.txt", "run/c07", "run/c07/f.txt/x"];
